@@ -144,7 +144,8 @@ def run(ctx, out):
                         good = list(pre)
                     if fb is not None and kind != "truncated" and rng.random() < 0.5:
                         items.append(rng.choice(letters)[0])       # something else queued behind the fault
-                    ops.append(f"seq {s['name']} {cmd.hex()} " + (",".join(i.hex() for i in items) if items else "."))
+                    k = rng.choice([0, 0, 0, 1, 2, 5])          # a share with short reads (every client read limited to k bytes)
+                    ops.append(f"seq{'@%d' % k if k else ''} {s['name']} {cmd.hex()} " + (",".join(i.hex() for i in items) if items else "."))
                     if pos == "ack":
                         want_prefix.append([f"w:{cmd.hex()}"])
                     else:
@@ -171,7 +172,7 @@ def run(ctx, out):
         if why:
             out.oracle_failures.append({"op": o[:400], "observed": r[:500], "expected": " / ".join(pre) + " / [r:n] / e:<kind> / end", "key": o[:200],
                                         "what": f"{o.split()[1]} with fault {kd}: {why}"})
-    out.rule = (f"all {len(spec['sequences'])} exchanges x valid reply prefixes up to depth {depth - 1} x fault kinds (NACK 84xx, foreign control field, undecodable body — a tag without value, or all tagged fields present and one repeated at the end —, truncated packet + close, EOF) "
+    out.rule = (f"all {len(spec['sequences'])} exchanges x valid reply prefixes up to depth {depth - 1} x fault kinds (NACK 84xx, foreign control field, undecodable body — a tag without value, or all tagged fields present and one repeated at the end —, truncated packet + close, EOF; half of the runs with every read of the client limited to 1, 2 or 5 bytes) "
                 "instead of the acknowledgement and at every later position, optionally with more data queued behind the fault; oracle on the implementation's event log: exactly one error, nothing but `end` after it, "
                 "no write after the failure, every 80 00 00 pairs with a yielded packet (the faulty packet is not acknowledged), valid prefix processed normally; implementation = model. non-trivial = distinct (sequence, prefix, fault)")
     out.samples = [ops[0][:300], {"op": ops[len(ops)//2][:200], "impl": impl[len(ops)//2][:300]}]
